@@ -120,7 +120,7 @@ Section Defs.
       w' = set_rem w -> TR g g' tr es w w'
   | TR_gone : all_acc es -> es <> [] -> wact w = true -> g' = g -> (forall a i, ~ data_at g a i (fst (wcur w))) ->
       w' = set_gone w -> TR g g' tr es w w'
-  | TR_erased b : es = [ev_erased b] -> wact w = true -> g' = g ->
+  | TR_erased b : es = [ev_erased b] -> wact w = true -> g' = g -> fst (wcur w) <> 0 ->
       (b = true -> wrem w = 1) -> (b = false -> wrem w = 0 /\ wgone w = true) -> w' = w -> TR g g' tr es w w'.
 
   Definition SR (t : nat) (g g' : G) (tr : list (nat * ev)) (es : list ev) (w w' : WI) : Prop :=
